@@ -44,7 +44,7 @@ ASSUMPTIONS = [
     "single-program outcomes of one effect have pairwise distinct distances from the baseline: with exact ties the 'best' program of a combination is decided by the insertion order of Covout.progs, which the program book does not record (observed: 0.5 vs 0.0 after a round trip of baseline 0.25, outcomes 0.5/0.0); reported, not counted",
     "single population type only (gen_model does not generate several types)",
 ]
-BUDGET = {"quick": 640, "thorough": 5120}  # thorough = 8x quick: a depth that was run to completion, quiet, at seed 1 (deterministic given the seed)
+BUDGET = {"quick": 640, "thorough": 2560}  # thorough = 4x quick: a depth that was run to completion, quiet, at seed 1 (deterministic given the seed)
 TIME_CAP = {"quick": 50, "thorough": 1500}
 RTOL_CONTENT = 1e-14
 RTOL_SIM = 1e-9
